@@ -211,6 +211,8 @@ def main():
     with open(os.path.join(EVID, f"{pid}.json"), "w") as f:
         json.dump(ev, f, indent=1)
 
+    import shutil
+    shutil.rmtree(verus_run.BUILD, ignore_errors=True)
     if reported:
         sys.exit(1)
     if undecided:
